@@ -29,8 +29,18 @@ EXPLANATION = ('PARTIAL. Proved (unbounded, all operands): the 15 integer runtim
                'runtime), equals WasmNumSpec whenever the spec does not trap, and raises ZeroDivisionError (turned into '
                'WasmTrapException) for divisor 0. Refuted: iN.div_s MIN/-1 returns MIN instead of trapping; under the '
                'target-independent IR reading shift counts >= N are undefined behaviour (wasm2ppci does not mask). '
-               'NOT modelled/proved: control flow, calls, locals/globals, memory, tables, floats, the native target, '
-               'the text/binary front end; these are exercised by tests only. Linear memory and globals '
+               'Also proved: under the target-independent IR reading (ir_run) the emitted IR equals the spec for every '
+               'opcode whenever shift counts lie in [0,N) and the divisor is not 0, and is undefined for every shift count '
+               'outside [0,N) (the only gap). LINEAR MEMORY (Props/C22_mem.v, hand model Model/WasmMem.v of IrPy '
+               'read_mem/write_mem/load_/store_ struct formats, PythonMemoryInstance.size/grow/write and the wasm2ppci '
+               'address computation, cross-checked per run on the real runtime object and real modules): every integer '
+               'load/store width and signedness is little-endian with correct sign/zero extension and store truncation for '
+               'in-bounds accesses, every out-of-bounds access with address < 2^31 raises, active data segments, '
+               'memory.size and memory.grow equal Spec/WasmMemSpec.v; refuted rows: address >= 2^31 not trapped '
+               '(fix proposed: fixes/C22-address-unsigned.diff, positive theorems for the repaired lowering are proved '
+               'and used automatically once the source has it), memory.grow operand >= 2^31 raises ValueError. '
+               'NOT modelled/proved: control flow, calls, locals/globals, float loads/stores, tables, floats, the native '
+               'target, the text/binary front end; these are exercised by tests only. Linear memory and globals '
                '(memory.size/grow with min/max limits, every load/store width and signedness with static offsets at '
                'the last valid address and one past it, data segments, mutable/immutable globals, grow-store-load '
                'sequences, final memory image) are VALIDATED ONLY by a search-only differential stage '
@@ -41,6 +51,10 @@ TRUSTED = ['tools/py2coq.py (translator; cross-checked per run against the imple
            'cross-checked end to end by executing the real python target on the same operands)',
            'Model/WasmIr.v py_run mirrors ir2py gen_binop/gen_cast/gen_cjump/gen_const/FunctionCall (hand model)',
            'Python int arithmetic == Coq Z arithmetic',
+           'Model/WasmMem.v (hand model of IrPy memory builtins, struct integer formats on a little-endian host, Python '
+           'slice semantics, PythonMemoryInstance, wasm2ppci address computation and narrow load/store lowering; the '
+           'opcode -> (width, struct format, N) table is in tools/props/c22_mem.py; all cross-checked per run)',
+           'the wasm memory is the last allocation on the IrPy heap (instantiate creates it after globals and tables)',
            'reading of the WebAssembly core specification 4.3.2 in Spec/WasmNumSpec.v']
 ASSUMPTIONS = ['operands are passed as signed Python ints in [-2^(N-1), 2^(N-1)) (what the python instance produces)',
                'fuel > 64 for clz/ctz (loops run at most N times)']
@@ -443,6 +457,7 @@ def end_to_end_cases(ctx, inst, per_op):
 
 
 CASE_TIMEOUT = 150
+MEM_TARGETS = ['Proofs/C22_mem.vo', 'Proofs/C22_mem_fixed.vo']      # proofs about the memory model Model/WasmMem.v
 
 KNOWN_OVERFLOW = [('i32.div_s', [-2 ** 31, -1], ['i32', 'i32'], 'i32'), ('i64.div_s', [-2 ** 63, -1], ['i64', 'i64'], 'i64')]
 
@@ -450,9 +465,17 @@ KNOWN_OVERFLOW = [('i32.div_s', [-2 ** 31, -1], ['i32', 'i32'], 'i32'), ('i64.di
 def run(ctx):
     from props import c22_exec as X
     rt_infos, _irpy_infos, table = regen(ctx)
-    ok, _ = ctx.build(['Proofs/C22_table.vo'])
+    ok, _ = ctx.build(['Proofs/C22_table.vo', 'Proofs/C22_irread.vo'] + MEM_TARGETS)
     if ok:
         ctx.check_props('Props/C22.v')
+        ctx.check_props('Props/C22_mem.v')
+    if ctx.build(['Model/WasmMem.vo', 'Lib/Val.vo'])[0]:
+        from props import c22_mem
+        try:
+            c22_mem.model_correspondence(ctx, CASE_TIMEOUT)
+        except Exception as ex:   # noqa: BLE001
+            ctx.log('memory model correspondence crashed: %r' % (ex,))
+            ctx.failed_stages.append(('correspondence', 'memory model correspondence crashed: %r' % (ex,)))
     inst = None
     try:
         inst = X.instantiate_ops(module_text(all_ops()), 'python')
@@ -525,8 +548,14 @@ MANIFEST = {
             'integer operators; the IR that wasm2ppci emits for each of the 66 integer numeric opcodes (table exported from the '
             'real compiler on every run and proved equal to the expected shapes) evaluates, under the python-target semantics '
             '(ir2py text + translated IrPy runtime), to the specification value whenever the specification does not trap, and '
-            'raises ZeroDivisionError (= WasmTrapException) for divisor 0. Refuted and recorded as known finding: iN.div_s MIN/-1 '
-            'returns MIN instead of trapping. Control flow, calls, memory, tables, globals, floats and the native target are NOT '
+            'raises ZeroDivisionError (= WasmTrapException) for divisor 0; the same IR under the target-independent reading '
+            '(ir_run) equals the specification wherever shift counts are in [0,N), and is undefined exactly for the unmasked '
+            'counts. Linear memory of the python target (hand model of the IrPy memory builtins, PythonMemoryInstance and the '
+            'wasm2ppci address computation): integer loads/stores of every width and signedness, out-of-bounds raising for '
+            'addresses < 2^31, data segments, memory.size/grow are proved equal to Spec/WasmMemSpec.v. Refuted and recorded as '
+            'known findings: iN.div_s MIN/-1 returns MIN instead of trapping; addresses >= 2^31 are not trapped (fix diff '
+            'provided); memory.grow with operand >= 2^31 raises ValueError. Control flow, calls, tables, globals, floats (incl. '
+            'float loads/stores) and the native target are NOT '
             'proved: integer opcodes are executed end to end through instantiate(target=python) (native in the thorough tier) '
             'against an independent oracle, and float trunc/nearest/min/max/ceil/floor run on a fixed boundary pool as TESTS; '
             'their failures (NaN -> ValueError, out-of-range trunc not trapping, lost -0.0/NaN) are known findings. Linear '
